@@ -281,8 +281,9 @@ type nameModel struct {
 	readers  []*readSet
 	past     map[string]bool // digests ever linked by a completed Link
 
-	overlap   bool   // Link/Unlink calls overlapped since the model was last definite
+	overlap   bool   // Link/Unlink calls of this name overlapped at some point of the run (may leave two case-variant files)
 	lastMut   string // outcome of the last completed Link/Unlink: link-ok, link-failed, unlink
+	lastBusy  bool   // the last successful Link started on an incomplete blob file or ran while the blob was being written
 	crashLink bool   // a Link of this name was in flight when the process died
 	hist      []string
 }
@@ -293,12 +294,16 @@ func (m *nameModel) note(f string, a ...any) {
 	}
 }
 
-type readSet struct{ m map[string]bool }
+type readSet struct {
+	m    map[string]bool
+	over bool // a Link/Unlink of the name was in flight at some instant of the read
+}
 
 func (m *nameModel) add(v string) {
 	m.poss[v] = true
 	for _, r := range m.readers {
 		r.m[v] = true
+		r.over = true
 	}
 }
 
@@ -337,7 +342,6 @@ func (m *nameModel) endMut(t *mutTicket, v string, changed bool) {
 		m.overlap = true
 		return
 	}
-	m.overlap = false
 	if changed {
 		m.set(map[string]bool{v: true})
 	} else {
@@ -346,7 +350,7 @@ func (m *nameModel) endMut(t *mutTicket, v string, changed bool) {
 }
 
 func (m *nameModel) beginRead() *readSet {
-	r := &readSet{m: map[string]bool{}}
+	r := &readSet{m: map[string]bool{}, over: m.active > 0}
 	for k := range m.poss {
 		r.m[k] = true
 	}
@@ -756,6 +760,8 @@ func (w *blobWorld) nameCause(m *nameModel) string {
 		return "concurrent-name-ops"
 	case m.lastMut == "link-failed":
 		return "after-failed-link"
+	case m.lastMut == "link-ok" && m.lastBusy:
+		return "linked-incomplete-blob"
 	case w.crashKind != "":
 		return "after-crash"
 	}
@@ -1010,7 +1016,9 @@ func (w *blobWorld) doLink(who string, op blobOp) {
 	m := w.names[op.name]
 	d := w.digests[op.dig]
 	name := m.variants[op.variant]
-	s0 := w.stepNo
+	// observations that count for I3 are those made from the end of the current step on
+	// (the step in which the call starts may itself have changed the disk before the call)
+	s0 := w.stepNo + 1
 	fileState := func() string {
 		st, err := os.Stat(w.c.GetFile(d.d))
 		switch {
@@ -1040,6 +1048,7 @@ func (w *blobWorld) doLink(who string, op blobOp) {
 	}
 	m.endMut(tk, d.d.String(), true)
 	m.lastMut = "link-ok"
+	m.lastBusy = before != "full-size-file" || !quiet || d.starts != starts0
 	m.past[d.d.String()] = true
 	verifsim.Probe("link_ok")
 	// I3: the blob existed at some instant of the call
@@ -1097,6 +1106,9 @@ func (w *blobWorld) doResolve(who string, m *nameModel, variant int) string {
 		return fmt.Sprintf("candidates by the history: [%s]\nhistory of the name: %s\ncase: %s", strings.Join(al, " "), strings.Join(m.hist, " | "), strings.Join(w.desc, "\n  "))
 	}
 	cause := w.nameCause(m)
+	if rs.over && !m.crashLink {
+		cause = "concurrent-name-ops"
+	}
 	if err != nil {
 		if errors.Is(err, fs.ErrNotExist) {
 			verifsim.Probe("resolve_not_linked")
